@@ -124,6 +124,19 @@ def r2_factory_label(chk: Check) -> None:
                 chk.violation("C02.R2", fn, construct, f"the label is set to {unparse(labels[0].value)} while positive data is generated", fn.loc(s))
             else:
                 chk.violation("C02.R2", fn, construct, "positive data is generated for this part but its label stays negative: valid data is reported as 'negative data accepted'", fn.loc(s))
+        # the fallback is a property of the operation, not of a random draw: its guards must not depend on draw(...)
+        for s_ in rebinds:
+            guards = [a.test for a in ancestors(s_) if isinstance(a, ast.If) and any(is_within(s_, b_) for b_ in a.body + a.orelse)]
+            drawn = [g_ for g_ in guards if any("draw(" in x for x in canon(fn, g_))]
+            construct = "positive fallback decided over all alternatives (not for one drawn alternative)"
+            if drawn:
+                chk.violation("C02.R2", fn, construct,
+                              f"the guard `{unparse(drawn[0], 80)}` depends on a value obtained from draw(...): whether this part can be negated is decided for ONE randomly drawn alternative, so an operation that has a negatable alternative still gets positive data on some draws and, in negative-only mode, is skipped as 'impossible to generate negative test cases'",
+                              fn.loc(s_))
+            elif guards:
+                chk.ok("C02.R2", fn, construct, "", fn.loc(s_))
+            else:
+                chk.undecided("C02.R2", fn, construct, "the fallback is not guarded at all", fn.loc(s_))
         # the label variable reaches the ValueContainer
         vcs = [c for c in body_calls(fn) if last_attr(c) == "ValueContainer" and kwarg(c, "generator") is not None]
         for c in vcs:
